@@ -110,6 +110,16 @@ type Scan struct {
 	Pos     string
 }
 
+// PkgCallPre: a caller-side rule for a whole package - pkgcallpre[label] <props> <callee>: expr. Every function of
+// the package that calls <callee> gets the rule as a callpre clause; a function without a unit of its own becomes a
+// "trusted callpre" unit (only its caller-side obligations are generated).
+type PkgCallPre struct {
+	Pkg    string
+	Props  []string
+	Clause *Clause
+	Except []string // callers (FuncName form, e.g. (*Parser).parseVar) the rule is not applied to: undecided there, stated in the contract file
+}
+
 // Guard: package-level variable <Global> of package Pkg may only be accessed while the lock denoted by Lock is held.
 type Guard struct {
 	Pkg, Global string
@@ -121,6 +131,7 @@ type ContractSet struct {
 	Guards      map[string]*Guard // key: pkgpath + "." + global name
 	FieldGuards map[string]string // key: pkgpath + "." + Type + "." + field -> name of the mutex field of the same struct
 	Scans       []*Scan
+	PkgCallPres []*PkgCallPre
 	Funcs       map[string]*Contract // key: pkgpath + "." + FuncName
 	Order       []string
 	Specs       map[string]*SpecFn
@@ -274,7 +285,7 @@ var clauseKeywords = map[string]bool{
 	"func": true, "props": true, "ghostensures": true, "case": true, "assume": true, "carve": true, "caseall": true, "commute": true, "sortby": true, "assumeframe": true, "guarded": true, "guardedfield": true, "dyncall": true, "dynensures": true, "returnguard": true, "storeguard": true, "chansend": true, "callpre": true, "mode": true, "requires": true, "ensures": true, "invariant": true,
 	"modifies": true, "safety": true, "overflow": true, "inline": true, "trusted": true, "dispatch": true,
 	"let": true, "spec": true, "external": true, "uf": true, "params": true, "results": true,
-	"global": true, "noinline": true, "nocontract": true, "expand": true, "split": true, "strictpkgs": true, "modcomps": true, "axiom": true, "uses": true, "scan": true, "witness": true, "havoc": true, "inlineall": true, "unroll": true,
+	"global": true, "noinline": true, "nocontract": true, "expand": true, "split": true, "strictpkgs": true, "modcomps": true, "axiom": true, "uses": true, "scan": true, "pkgcallpre": true, "witness": true, "havoc": true, "inlineall": true, "unroll": true,
 }
 
 // parseContractSource extracts the //@ lines of one file.
@@ -393,6 +404,30 @@ func (cs *ContractSet) parseContractSource(pkgPath, filename string, src []byte)
 			sc := &Scan{Pkg: pkgPath, Label: label, Pos: pos, Kind: head[len(head)-2], Target: head[len(head)-1], Props: strings.Split(head[0], ","),
 				Allowed: strings.Fields(strings.ReplaceAll(rest[colon+1:], ",", " "))}
 			cs.Scans = append(cs.Scans, sc)
+		case "pkgcallpre":
+			// pkgcallpre[label] <props> <callee>: expr
+			colon := strings.Index(rest, ":")
+			head := []string{}
+			if colon >= 0 {
+				head = strings.Fields(rest[:colon])
+			}
+			if len(head) < 2 {
+				bad(fmt.Errorf("pkgcallpre[label] <props> <callee> [-excludedCaller ...]: expr"))
+				continue
+			}
+			if c := mk(strings.TrimSpace(rest[colon+1:])); c != nil {
+				c.Raw = head[1]
+				r := &PkgCallPre{Pkg: pkgPath, Props: strings.Split(head[0], ","), Clause: c}
+				for _, x := range head[2:] {
+					if !strings.HasPrefix(x, "-") {
+						bad(fmt.Errorf("pkgcallpre: expected -<caller> after the callee"))
+						continue
+					}
+					r.Except = append(r.Except, x[1:])
+				}
+				cs.PkgCallPres = append(cs.PkgCallPres, r)
+			}
+			cur = nil
 		case "guardedfield":
 			// guardedfield <Type>.<field> <mutex field of the same struct>
 			fs := strings.Fields(rest)
